@@ -274,7 +274,7 @@ func c11Run(c *core.Ctx, cs c11Case) bool {
 func c11Check(c *core.Ctx) {
 	c.SetRule("For every valid (p,s) (p 1..65, s 0..min(30,p): 1580 pairs; the pair list is split over the shards) a fixed family of digit strings " +
 		"(all zeros; lowest / highest digit 1; all nines; every storage group = 1; each storage group non-zero alone; each group zero with the others non-zero; " +
-		"the first k integer groups zero; integer part zero / fraction zero) plus N random digit strings (N=20 quick, 5000 thorough), each with both signs " +
+		"the first k integer groups zero; integer part zero / fraction zero) plus N random digit strings (N=20 quick, 20000 thorough), each with both signs " +
 		"(no negative zero). The value is encoded with an own decimal2bin, embedded at a random non-zero offset between random filler bytes, and decoded with " +
 		"CellBytes(TypeNewDecimal, p<<8|s). A case is identified by (p,s,sign,digits); every case counts as non-trivial (the all-zero string is a required class). " +
 		"distinct_nontrivial counts the first 300 000 cases of each process by hash.")
@@ -294,7 +294,7 @@ func c11Check(c *core.Ctx) {
 		return
 	}
 
-	nrandom := c.N(20, 5000)
+	nrandom := c.N(20, 20000)
 	idx := -1
 	hashed := 0
 	for p := 1; p <= 65; p++ {
